@@ -65,6 +65,8 @@ CONSTANTS Atoms,          \* [1..N -> [ins, outs, fee, shift, lock, nrd]]
                           \* add_to_pool does; FALSE: they look at the transaction as submitted (careless variant:
                           \* an under-paying tx rides in aggregated with an already pooled, well-paying one)
           ShortReorg,     \* allow a heavier but shorter fork (2 blocks replaced by 1)
+          NrdEnabled,     \* the node's NRD feature flag (global::is_nrd_enabled)
+          NrdHeight,      \* first height whose header version admits NRD kernels (HF3: 9 under AutomatedTesting)
           ReconcileMature, \* TRUE: re-validation after a block / reorg also demands maturity and lock height
                           \* (what C13/C14 demand); FALSE: utxo and sums only, as Pool::reconcile does
           MaxBlocks, MaxSteps   \* model-checking bounds only
@@ -151,7 +153,7 @@ ValidBlock(B, ch) ==
   /\ JointOK(B, Utxo(ch))
   /\ \A c \in TxOf(B).ins : MatureAt(c, HeightOf(ch) + 1)
   /\ LockOf(B) <= HeightOf(ch) + 1
-  /\ \A a \in B : ~Atoms[a].nrd
+  /\ \A a \in B : Atoms[a].nrd => NrdEnabled /\ HeightOf(ch) + 1 >= NrdHeight   \* Block::validate: NRDKernelPreHF3 / not enabled
   /\ WeightOf(TxOf(B)) + CoinbaseWeight <= MaxBlockWeight
 
 ----------------------------------------------------------------------------
@@ -179,6 +181,11 @@ Deagg(t) ==
   IN IF Cardinality(t) > 1 /\ found # {}
      THEN [k |-> t \ F, ins |-> TxOf(t).ins \ TxOf(F).ins, outs |-> TxOf(t).outs \ TxOf(F).outs]
      ELSE TxOf(t)
+
+\* TransactionPool::verify_kernel_variants: NRD kernels need the feature flag and a HEAD of header version >= 4.
+\* (The property only demands that the NEXT block may carry them, Height + 1 >= NrdHeight; the code is stricter by one
+\* block. The behaviour generator does not submit NRD kernels at Height = NrdHeight - 1, where both are legitimate.)
+NrdRefused(P) == \E a \in P : Atoms[a].nrd /\ (~NrdEnabled \/ Height < NrdHeight)
 
 Rej(why) == [res |-> "reject", why |-> why, tp |-> txpool, sp |-> stempool, ca |-> cache, evict |-> FALSE, adm |-> {}]
 
@@ -213,7 +220,7 @@ Fluff(t) ==
   ELSE LET e == Deagg(t)                                   \* deaggregate_tx comes first ...
            f == IF FeeOnRemainder THEN e ELSE TxOf(t)      \* ... so that the admission tests see the remainder
            over == Len(txpool) > MaxPool
-       IN IF \E a \in f.k : Atoms[a].nrd THEN Rej("nrd")
+       IN IF NrdRefused(f.k) THEN Rej("nrd")
           ELSE IF FeeFirst /\ Underpaid(f) THEN Rej("fee")
           ELSE IF ~over /\ Underpaid(f) THEN Rej("fee")
           ELSE LET \* careless order only: over capacity, the lock height is never looked at
@@ -224,7 +231,7 @@ Stem(t, relay) ==
   IF t \in SeqToSet(stempool) THEN Fluff(t)
   ELSE IF t \in SeqToSet(txpool) THEN Rej("dup")
   ELSE LET e == TxOf(t)
-       IN IF \E a \in t : Atoms[a].nrd THEN Rej("nrd")
+       IN IF NrdRefused(t) THEN Rej("nrd")
           ELSE IF Len(txpool) > MaxPool \/ Len(stempool) > MaxStem THEN Rej("capacity")
           ELSE IF Underpaid(e) THEN Rej("fee")
           ELSE LET s == Screen(e, AtomsIn(txpool \o stempool))
@@ -240,6 +247,42 @@ Stem(t, relay) ==
 \* entry creates that output too), and it is not the spender that keeps two creators of the same output apart
 Evictable(tp) == {x \in SeqToSet(tp) : JointOK(AtomsIn(Remove(tp, x)), U)}
 
+\* Pool::evict_transaction / bucket_transactions AS IMPLEMENTED at the pinned commit. The property leaves the victim
+\* free among Evictable; this function only PREDICTS which entry the code picks, so that (a) generated behaviours follow
+\* the real pool through evictions instead of stopping at a differing legal victim and (b) an eviction that breaks
+\* joint validity can be told apart by the rule that chose the victim (the known findings are those of THIS rule).
+\*   entries in insertion order; an entry with an input in `rej`, or with more than one input found in the index of
+\*   bucketed outputs, is rejected (its outputs go to `rej`); no indexed input: own bucket at the end; one: aggregate
+\*   with that bucket if the aggregate is a transaction and the fee rate does not drop, else own bucket at the end -
+\*   but its outputs are indexed under the PARENT's position either way; buckets sorted by (rate descending, age);
+\*   the victim is the last transaction of the last bucket.
+BRate(P) == FeeOf(P) \div WeightOf(TxOf(P))                  \* Transaction::fee_rate (plain fee, integer division)
+RECURSIVE Buckets(_, _)
+Buckets(s, st) ==
+  IF s = <<>> THEN st
+  ELSE LET x == Head(s)
+           e == TxOf(x)
+           hits == {c \in e.ins : c \notin st.rej /\ c \in DOMAIN st.idx}
+           Index(pos) == [c \in DOMAIN st.idx \cup e.outs |-> IF c \in e.outs THEN pos ELSE st.idx[c]]
+           Reject == [st EXCEPT !.rej = @ \cup e.outs]
+           NewBucket(pos) == [st EXCEPT !.b = Append(@, [txs |-> <<x>>, atoms |-> x, rate |-> BRate(x)]), !.idx = Index(pos)]
+       IN Buckets(Tail(s),
+            IF e.ins \cap st.rej # {} \/ Cardinality(hits) > 1 THEN Reject
+            ELSE IF hits = {} THEN NewBucket(Len(st.b) + 1)
+            ELSE LET pos == st.idx[CHOOSE c \in hits : TRUE]
+                     bk == st.b[pos]
+                     P == bk.atoms \cup x
+                 IN IF bk.atoms \cap x # {} \/ ~Consistent(P) THEN Reject
+                    ELSE IF BRate(P) >= bk.rate
+                         THEN [st EXCEPT !.b[pos] = [txs |-> Append(bk.txs, x), atoms |-> P, rate |-> BRate(P)], !.idx = Index(pos)]
+                         ELSE NewBucket(pos))
+CodeVictim(tp) ==
+  LET b == Buckets(tp, [b |-> <<>>, idx |-> [c \in {} |-> 0], rej |-> {}]).b
+  IN IF b = <<>> THEN {}
+     ELSE LET lo == CHOOSE r \in {b[i].rate : i \in 1..Len(b)} : \A i \in 1..Len(b) : r <= b[i].rate
+              i == MaxOf({j \in 1..Len(b) : b[j].rate = lo})      \* age = order of creation = position
+          IN b[i].txs[Len(b[i].txs)]
+
 \* The FORM in which the inputs of a submission are written - commitments only, or commitments with DECLARED output
 \* features, truthful or not (coinbase labelled plain, plain labelled coinbase) - is deliberately not a parameter:
 \* the declared features are covered by no signature, add_to_pool looks the spent outputs up (locate_spends) and
@@ -254,11 +297,12 @@ Submit(t, stem, relay) ==
                /\ txpool' = Remove(r.tp, v)
                /\ stempool' = IF EvictMode = "nodeps" THEN Rebuild(r.sp, <<>>, txpool', U, Height + 1) ELSE r.sp
                /\ last' = [k |-> "Submit", t |-> t, stem |-> stem, relay |-> relay, res |-> r.res, why |-> r.why,
-                           adm |-> r.adm, evict |-> TRUE, pre |-> r.tp, allowed |-> Evictable(r.tp), victim |-> v]
+                           adm |-> r.adm, evict |-> TRUE, pre |-> r.tp, allowed |-> Evictable(r.tp), victim |-> v,
+                           codevictim |-> CodeVictim(r.tp)]
         ELSE /\ txpool' = r.tp
              /\ stempool' = r.sp
              /\ last' = [k |-> "Submit", t |-> t, stem |-> stem, relay |-> relay, res |-> r.res, why |-> r.why,
-                         adm |-> r.adm, evict |-> FALSE, pre |-> <<>>, allowed |-> {}, victim |-> {}]
+                         adm |-> r.adm, evict |-> FALSE, pre |-> <<>>, allowed |-> {}, victim |-> {}, codevictim |-> {}]
      /\ cache' = r.ca
      /\ nsteps' = nsteps + 1
      /\ UNCHANGED <<chain, pending>>
@@ -329,14 +373,34 @@ Reorg(d, bs) ==
   /\ UNCHANGED <<cache, pending>>
 
 \* Pool::prepare_mineable_transactions : some order of the pool (the bucket order - left free here), then
-\* validate_raw_txs keeps a tx when the aggregate so far plus it validates within the miner's weight limit
+\* validate_raw_txs keeps a tx when the aggregate so far plus it validates within the miner's weight limit.
+\* Weighting::AsLimitedTransaction: the miner's mineable_max_weight never lifts the limit above the consensus block
+\* weight (a node may be CONFIGURED with a larger value), and room is left for the coinbase.
+MineLimit == IF MineWeight < MaxBlockWeight THEN MineWeight ELSE MaxBlockWeight
 RECURSIVE Greedy(_, _)
 Greedy(s, acc) ==
   IF s = <<>> THEN acc
   ELSE LET P == acc \cup Head(s)
        IN Greedy(Tail(s), IF /\ acc \cap Head(s) = {} /\ JointOK(P, U)
-                             /\ WeightOf(TxOf(P)) + CoinbaseWeight <= MineWeight THEN P ELSE acc)
+                             /\ WeightOf(TxOf(P)) + CoinbaseWeight <= MineLimit THEN P ELSE acc)
 Mineable == Greedy(txpool, {})
+
+\* mine_block::get_block / build_block : the block template handed to a miner for the set S offered by the pool.
+\*   prev    : it is built on the BODY head (Chain::head_header), never on a header that is ahead of its body
+\*             (`pending`): the roots of the txhashset can only be computed on top of a block whose body is known
+\*   claimed : the coinbase claims the block reward plus the PLAIN sum of the kernels' fee fields (Transaction::fee).
+\*             The fee shift of a kernel only scales what the POOL demands (shifted_fee); the kernel sums of a block
+\*             balance (Block::verify_coinbase, verify_kernel_sums with overage = reward + fees) exactly when the
+\*             coinbase claims what the kernels carry - so get_block, which retries until build_block succeeds, only
+\*             returns at all if claimed = FeeOf(S)
+\*   late    : the header timestamp is after the head's even when the head's timestamp is ahead of the local clock
+TemplateFor(S) == [prev |-> HeightOf(chain), height |-> HeightOf(chain) + 1, txs |-> S, claimed |-> FeeOf(S),
+                   weight |-> WeightOf(TxOf(S)) + CoinbaseWeight]
+\* what the chain's pipeline demands of a template (plus the miner's own limit)
+TemplateOK(tm) == /\ tm.prev = Height /\ tm.height = Height + 1
+                  /\ ValidBlock(tm.txs, chain)
+                  /\ tm.claimed = FeeOf(tm.txs)
+                  /\ tm.weight <= MineWeight /\ tm.weight <= MaxBlockWeight
 PrepareMineable ==
   /\ nsteps < MaxSteps
   /\ last' = [k |-> "Mineable", set |-> Mineable]
@@ -365,4 +429,5 @@ AdmitMatureUnlocked ==
               /\ \A c \in TxOf(last.adm).ins : c \in U => MatureAt(c, Height + 1)
 MineableAccepted == /\ ValidBlock(Mineable, chain)
                     /\ WeightOf(TxOf(Mineable)) + CoinbaseWeight <= MineWeight
+                    /\ TemplateOK(TemplateFor(Mineable))
 =============================================================================
